@@ -59,6 +59,9 @@ def _gen_padding(rng):
 
 def gen_op(rng, n, closed):
     roll = rng.random()
+    if n and rng.random() < 0.12:
+        # revisit: go back to an early frame (cached iterators must notice changed settings)
+        return {"name": "seek", "off": rng.randrange(0, min(n, 3)), "whence": "START"}
     if roll < 0.45:
         return {"name": "next"}
     if roll < 0.65:
@@ -66,7 +69,7 @@ def gen_op(rng, n, closed):
         off = rng.randrange(-span, span + 1) if rng.random() < 0.93 else rng.choice([-10**6, 10**6, 2**30])
         return {"name": "seek", "off": off, "whence": rng.choice(["START", "CURRENT", "END"])}
     if roll < 0.73:
-        return {"name": "set_frame_duration", "v": rng.choice([1, 50, 70, 1000, iterkit.DYN, iterkit.DYN, 0, -5])}
+        return {"name": "set_frame_duration", "v": rng.choice([1, 1, 50, 70, 1000, iterkit.DYN, iterkit.DYN, 0, -5])}
     if roll < 0.81:
         return {"name": "set_padding", "v": gen_padding(rng)}
     if roll < 0.87:
